@@ -200,17 +200,21 @@ Proof.
     [reflexivity|discriminate|]. subst v. rewrite (IH _ H Hv'). reflexivity.
 Qed.
 
-Lemma block_then_none_val c asg : forall r l rv, block_then_none r = Some l -> cvals c asg r rv ->
-  exists lv, bvals c asg l lv /\ bits_val rv = bits_val lv.
+Lemma trim_fill_val c asg z : forall r rv, cvals c asg r rv -> (has_gap r = true -> bval c asg z false) ->
+  exists lv, bvals c asg (trim_fill z r) lv /\ bits_val rv = bits_val lv.
 Proof.
-  induction r as [|[x|] r IH]; intros l rv H Hv.
-  - simpl in H. injection H as Hl. subst l. inversion Hv; subst. exists []. split; [constructor|reflexivity].
-  - cbn [block_then_none] in H. destruct (block_then_none r) as [l'|] eqn:E; [|discriminate].
-    simpl in H. injection H as Hl. subst l.
-    inversion Hv as [|? v ? rv' Hv0 Hv']; subst. destruct (IH _ _ eq_refl Hv') as (lv & Hlv & El).
-    exists (v :: lv). split; [constructor; assumption|]. rewrite !bits_val_cons, El. reflexivity.
-  - simpl in H. destruct (all_none r) eqn:E; [|discriminate]. injection H as Hl. subst l.
-    exists []. split; [constructor|]. rewrite (all_none_val c asg (None :: r) rv E Hv). reflexivity.
+  induction r as [|cl r IH]; intros rv Hv Hz.
+  - inversion Hv; subst. exists []. split; [constructor|reflexivity].
+  - cbn [trim_fill]. destruct (all_none (cl :: r)) eqn:E.
+    + exists []. split; [constructor|]. rewrite (all_none_val _ _ _ _ E Hv). reflexivity.
+    + inversion Hv as [|? v ? rv' Hv0 Hv']; subst. cbn [has_gap] in Hz. rewrite E in Hz.
+      destruct cl as [l|].
+      * destruct (IH _ Hv' Hz) as (lv & Hlv & El). exists (v :: lv). split; [constructor; assumption|].
+        rewrite !bits_val_cons, El. reflexivity.
+      * simpl in Hv0. subst v. destruct (IH _ Hv') as (lv & Hlv & El).
+        { intros _. apply Hz. reflexivity. }
+        exists (false :: lv). split; [constructor; [apply Hz; reflexivity|exact Hlv]|].
+        rewrite !bits_val_cons, El. reflexivity.
 Qed.
 
 Lemma leading_none_val c asg : forall r rv, cvals c asg r rv ->
@@ -225,20 +229,44 @@ Proof.
     rewrite bits_val_cons, pow2_succ, H2. simpl. lia.
 Qed.
 
-Lemma wallace_final_spec fresh r0 r1 s sh la lb s' :
-  run fresh (wallace_final r0 r1) s = Ok ((sh, la, lb), s') ->
-  s' = s /\ forall c asg r0v r1v, cvals c asg r0 r0v -> cvals c asg r1 r1v ->
+Lemma wallace_final_spec fresh a r0 r1 s sh la lb s' :
+  run fresh (wallace_final a r0 r1) s = Ok ((sh, la, lb), s') ->
+  ext (bc s) (bc s') /\ outputs (bc s') = outputs (bc s) /\
+  forall c, ext (bc s') c -> forall asg av r0v r1v, bvals c asg a av -> cvals c asg r0 r0v -> cvals c asg r1 r1v ->
     exists lav lbv, bvals c asg la lav /\ bvals c asg lb lbv /\
       bits_val r0v = bits_val lav /\ bits_val r1v = 2 ^ Z.of_nat sh * bits_val lbv.
 Proof.
-  unfold wallace_final. intros H.
-  destruct (block_then_none r0) as [la0|] eqn:E0; [|discriminate].
-  destruct (block_then_none (skipn (leading_none r1) r1)) as [lb0|] eqn:E1; [|discriminate].
-  apply run_ret_inv in H as (E & ->). injection E as -> -> ->. split; [reflexivity|].
-  intros c asg r0v r1v H0 H1.
-  destruct (block_then_none_val _ _ _ _ _ E0 H0) as (lav & Hla & Ea).
+  unfold wallace_final. intros H. apply run_bind_inv in H as (z & s1 & Hz & H).
+  apply run_ret_inv in H as (E & ->). injection E as -> -> ->.
+  assert (ext (bc s) (bc s1) /\ outputs (bc s1) = outputs (bc s) /\
+          forall c, ext (bc s1) c -> forall asg av, bvals c asg a av ->
+            has_gap r0 || has_gap (skipn (leading_none r1) r1) = true -> bval c asg z false) as (X & O & Vz).
+  { destruct (has_gap r0 || has_gap (skipn (leading_none r1) r1)) eqn:Eg.
+    - apply run_bind_inv in Hz as (a0 & s0 & Ha0 & Hz). apply nthP_inv in Ha0 as (Ea0 & ->).
+      pose proof (run_ext _ _ _ _ _ Hz) as X.
+      apply run_bind_inv in Hz as (l0 & s2 & Hf & Hz). apply run_bind_inv in Hz as ([] & s3 & Hg & Hz).
+      apply run_ret_inv in Hz as (-> & ->).
+      assert (run fresh (gate_tt tt_false a0 a0) s = Ok (l0, s3)) as Hgt.
+      { unfold gate_tt, gate_new. cbn [run]. cbn [run] in Hf. rewrite Hf. cbn [run] in Hg. rewrite Hg. reflexivity. }
+      apply gate_tt_spec in Hgt as (_ & _ & _ & _ & G & O & _).
+      split; [exact X|]. split; [exact O|].
+      intros c Hc asg av Hav _.
+      destruct (Forall2_nth_error _ _ _ _ _ Hav Ea0) as (v0 & _ & V0).
+      assert (has_tt c l0 tt_false a0 a0) as Ht.
+      { unfold has_tt. eapply ext_dget; [exact Hc|]. rewrite G, dget_app.
+        destruct (dget (gates (bc s)) l0) eqn:Ed.
+        - exfalso. apply run_fresh_inv in Hf as (_ & Hl & _). unfold has_gate, dmem in Hl. rewrite Ed in Hl. discriminate.
+        - simpl. rewrite leqb_refl. reflexivity. }
+      pose proof (has_tt_val _ _ _ _ _ asg _ _ Ht V0 V0) as Vz.
+      replace (tt_fun tt_false v0 v0) with false in Vz by (destruct v0; reflexivity). exact Vz.
+    - apply run_ret_inv in Hz as (-> & ->). split; [apply ext_refl|]. split; [reflexivity|]. intros; discriminate. }
+  split; [exact X|]. split; [exact O|].
+  intros c Hc asg av r0v r1v Hav H0 H1.
+  destruct (trim_fill_val c asg z _ _ H0) as (lav & Hla & Ea).
+  { intros Eg. apply (Vz c Hc asg av Hav). rewrite Eg. reflexivity. }
   destruct (leading_none_val _ _ _ _ H1) as (H1' & Eb).
-  destruct (block_then_none_val _ _ _ _ _ E1 H1') as (lbv & Hlb & Eb').
+  destruct (trim_fill_val c asg z _ _ H1') as (lbv & Hlb & Eb').
+  { intros Eg. apply (Vz c Hc asg av Hav). rewrite Eg. apply orb_true_r. }
   exists lav, lbv. repeat split; [exact Hla|exact Hlb|exact Ea|]. rewrite Eb, Eb'. reflexivity.
 Qed.
 
@@ -413,18 +441,19 @@ Proof.
   apply (wallace_loop_spec fresh (n + m) HN) in Hloop as (X2 & O2 & W2 & L2 & V2); [|exact Wrows].
   destruct rows' as [|r0 [|r1 [|? ?]]]; try discriminate.
   apply run_bind_inv in H as ([[sh la] lb] & s3 & Hf & H).
-  apply wallace_final_spec in Hf as (-> & Vf).
+  apply wallace_final_spec in Hf as (Xf & Of & Vf).
   apply run_bind_inv in H as (r & s4 & Hr & H). apply run_ret_inv in H as (-> & ->).
   apply add_sum_two_numbers_with_shift_correct in Hr as (X3 & _ & O3 & V3).
   split; [congruence|]. split; [rewrite rev_if_length, firstn_length; lia|].
   intros c Hc HP asg xv yv Hxv Hyv.
+  assert (ext (bc s3) c) as Hc3 by (eapply ext_trans; eassumption).
   assert (ext (bc s2) c) as Hc2 by (eapply ext_trans; eassumption).
   assert (ext (bc s1) c) as Hc1 by (eapply ext_trans; eassumption).
   destruct (Vrows c HP asg xv yv Hxv Hyv Hc1) as (rowsv & Hrowsv & Erows).
   destruct (V2 c Hc2 HP asg rowsv Hrowsv) as (rv2 & K & Hrv2 & E2).
   inversion Hrv2 as [|? r0v ? rest Hr0 Hrest]; subst. inversion Hrest as [|? r1v ? rest' Hr1 Hnil]; subst.
   inversion Hnil; subst.
-  destruct (Vf c asg r0v r1v Hr0 Hr1) as (lav & lbv & Hla & Hlb & Ea & Eb).
+  destruct (Vf c Hc3 asg _ r0v r1v (bvals_rev_if _ _ be _ _ Hxv) Hr0 Hr1) as (lav & lbv & Hla & Hlb & Ea & Eb).
   destruct (V3 c Hc asg lav lbv Hla Hlb) as (rv & Hrv & Er). unfold decode, rev_if in Er.
   exists (rev_if be (firstn (n + m) rv)). split; [apply bvals_rev_if, bvals_firstn, Hrv|].
   rewrite decode_rev_if.
